@@ -176,6 +176,7 @@ class Ctx:
         self.fresh_n = 0
         self.notes = []
         self.last_model = None   # a model of the current pc, when known (saves feasibility queries)
+        self.on_visible = None   # bmc mode: hook(interp, stack, callee, model) called before library calls / drops
 
     # -- symbols
     def sym(self, name, ty):
@@ -351,11 +352,13 @@ class Explorer:
 # the interpreter
 
 class Frame:
-    __slots__ = ("fn", "cells")
+    __slots__ = ("fn", "cells", "bb", "mid")
 
     def __init__(self, fn):
         self.fn = fn
         self.cells = {}
+        self.bb = 0
+        self.mid = False      # True: resume at the terminator of block bb (statements already done)
 
 
 class Loc:
@@ -444,31 +447,20 @@ class Interp:
 
     # -- calls
     def call(self, ctx, callee, args):
-        """callee: text of the MIR callee expression"""
-        m = self.find_model(callee)
-        if m is not None:
-            self.models_used.add(canon_callee(callee))
-            return m(self, ctx, callee, args)
-        fn = self.find_fn(callee, len(args))
-        if fn is None:
-            raise Inconclusive("no MIR body and no model for callee `%s`" % callee)
-        return self.run_fn(ctx, fn, args)
+        """callee: text of a callee expression (used by harnesses and by models calling back)"""
+        res = self.resolve_call(ctx, None, callee, args)
+        return self._do_resolved(ctx, res, callee)
 
     def call_value(self, ctx, f, args):
         """call a function value (fn item or closure)"""
-        if isinstance(f, FnItem):
-            return self.call(ctx, f.name, args)
-        if isinstance(f, Ref):
-            return self.call_value(ctx, get_path(f.cell.v, f.path), args)
-        if isinstance(f, Tup) and f.name and f.name.startswith("{closure@"):
-            fn = self.closure_body(f.name)
-            # closure bodies take (env or &env, args as separate params)
-            p0 = fn.params[0][1] if fn.params else ""
-            env = f
-            if p0.startswith("&"):
-                env = Ref(Cell(f, "closure-env"))
-            return self.run_fn(ctx, fn, [env] + list(args))
-        raise Inconclusive("call of non-function value %r" % (f,))
+        return self._do_resolved(ctx, self.resolve_value(f, args), "<value>")
+
+    def _do_resolved(self, ctx, res, callee):
+        if res[0] == "mir":
+            return self.run_fn(ctx, res[1], res[2])
+        name = res[3] if len(res) > 3 else callee
+        self.models_used.add(canon_callee(name))
+        return res[1](self, ctx, name, res[2])
 
     def closure_body(self, cname):
         for pr in self.progs:
@@ -477,58 +469,128 @@ class Interp:
                     return f
         raise Inconclusive("closure body not found for " + cname)
 
-    def run_fn(self, ctx, fn, args):
-        if fn.name in self.hooks:
-            return self.hooks[fn.name](self, ctx, fn, args)
+    def new_frame(self, fn, args):
         self.called.add(fn.name)
         if len(args) != len(fn.params):
             raise Inconclusive("arity mismatch calling %s" % fn.name)
         fr = Frame(fn)
         for (idx, ty), a in zip(fn.params, args):
             fr.cells[idx] = Cell(a, "%s._%d" % (fn.name, idx))
-        bb = 0
+        return fr
+
+    def run_fn(self, ctx, fn, args):
+        if fn.name in self.hooks:
+            return self.hooks[fn.name](self, ctx, fn, args)
+        return self.exec(ctx, [self.new_frame(fn, args)])
+
+    def resolve_call(self, ctx, fr, callee, args):
+        """-> ('model', fn) | ('mir', Fn, args) | ('value', v)"""
+        c = callee.strip()
+        if re.fullmatch(r"(copy |move )?_\d+", c) or c.startswith(("move ", "copy ")):
+            fv = self.operand(ctx, fr, P.parse_operand(c))
+            return self.resolve_value(fv, args)
+        m = self.find_model(c)
+        if m is not None:
+            return ("model", m, args)
+        # FnOnce/FnMut/Fn::call* on a closure or fn item: push the body instead of recursing
+        if re.match(r"^<.* as (std::ops::|core::ops::)?Fn(Once|Mut)?<.*>>::call(_once|_mut)?$", canon_callee(c)):
+            tup = args[1] if len(args) > 1 else UNIT
+            rest = list(tup.fields) if isinstance(tup, Tup) else []
+            return self.resolve_value(args[0], rest)
+        fn = self.find_fn(c, len(args))
+        if fn is None:
+            raise Inconclusive("no MIR body and no model for callee `%s`" % callee)
+        if fn.name in self.hooks:
+            return ("model", lambda it, cx, cal, ar: self.hooks[fn.name](it, cx, fn, ar), args)
+        return ("mir", fn, args)
+
+    def resolve_value(self, f, args):
+        if isinstance(f, Ref):
+            f = get_path(f.cell.v, f.path)
+        if isinstance(f, FnItem):
+            m = self.find_model(f.name)
+            if m is not None:
+                return ("model", m, args, f.name)
+            fn = self.find_fn(f.name, len(args))
+            if fn is None:
+                raise Inconclusive("no MIR body and no model for fn item `%s`" % f.name)
+            return ("mir", fn, args)
+        if isinstance(f, Tup) and f.name and f.name.startswith("{closure@"):
+            fn = self.closure_body(f.name)
+            p0 = fn.params[0][1] if fn.params else ""
+            env = Ref(Cell(f, "closure-env")) if p0.startswith("&") else f
+            return ("mir", fn, [env] + list(args))
+        raise Inconclusive("call of non-function value %r" % (f,))
+
+    def exec(self, ctx, stack):
+        """runs until the bottom frame of `stack` returns; returns its value.  In bmc mode the
+        `ctx.on_visible` hook may raise to stop in front of a visible operation."""
+        base = len(stack)
         while True:
-            blk = fn.blocks[bb]
-            for st in blk.stmts:
-                self.exec_stmt(ctx, fr, st)
+            fr = stack[-1]
+            fn = fr.fn
+            blk = fn.blocks[fr.bb]
+            if not fr.mid:
+                for st in blk.stmts:
+                    self.exec_stmt(ctx, fr, st)
+            fr.mid = False
             ctx.steps += 1
             if ctx.steps > ctx.ex.max_steps:
                 raise Inconclusive("step bound exceeded in " + fn.name)
             t = blk.term
             k = t.kind
             if k == "goto":
-                bb = t.f["bb"]
+                fr.bb = t.f["bb"]
             elif k == "return":
                 c = fr.cells.get(0)
-                return c.v if c is not None and c.v is not None else UNIT
+                rv = c.v if c is not None and c.v is not None else UNIT
+                stack.pop()
+                if len(stack) < base:
+                    return rv
+                caller = stack[-1]
+                ct = caller.fn.blocks[caller.bb].term
+                if ct.f["bb"] is None:
+                    raise Panic("diverging call returned: " + ct.f["callee"], caller.fn.name)
+                if ct.f["dest"] is not None:
+                    self.store(ctx, caller, ct.f["dest"], rv)
+                caller.bb = ct.f["bb"]
+                caller.mid = False
             elif k == "switch":
                 v = self.operand(ctx, fr, t.f["op"])
-                bb = self.do_switch(ctx, v, t.f["arms"], t.f["otherwise"])
+                fr.bb = self.do_switch(ctx, v, t.f["arms"], t.f["otherwise"])
             elif k == "assert":
                 c = as_bool(self.operand(ctx, fr, t.f["cond"]))
                 ok = c if t.f["expected"] else z3.Not(c)
                 if ctx.branch(ok):
-                    bb = t.f["bb"]
+                    fr.bb = t.f["bb"]
                 else:
-                    raise Panic("assert: " + t.f["msg"], "%s bb%d" % (fn.name, bb))
+                    raise Panic("assert: " + t.f["msg"], "%s bb%d" % (fn.name, fr.bb))
             elif k == "call":
                 callee = t.f["callee"]
                 args2 = [self.operand(ctx, fr, a) for a in t.f["args"]]
-                if re.fullmatch(r"(copy |move )?_\d+", callee.strip()) or callee.startswith(("move ", "copy ")):
-                    fv = self.operand(ctx, fr, P.parse_operand(callee))
-                    r = self.call_value(ctx, fv, args2)
-                else:
-                    r = self.call(ctx, callee, args2)
+                res = self.resolve_call(ctx, fr, callee, args2)
+                if res[0] == "mir":
+                    nf = self.new_frame(res[1], res[2])
+                    fr.mid = True          # on return, do not re-run this block's statements
+                    stack.append(nf)
+                    continue
+                name = res[3] if len(res) > 3 else callee
+                if ctx.on_visible is not None:
+                    ctx.on_visible(self, stack, canon_callee(name), res[1])
+                self.models_used.add(canon_callee(name))
+                r = res[1](self, ctx, name, res[2])
                 if t.f["bb"] is None:
                     raise Panic("diverging call returned: " + callee, fn.name)
                 if t.f["dest"] is not None:
                     self.store(ctx, fr, t.f["dest"], r)
-                bb = t.f["bb"]
+                fr.bb = t.f["bb"]
             elif k == "drop":
+                if ctx.on_visible is not None:
+                    ctx.on_visible(self, stack, "drop", None)
                 self.do_drop(ctx, fr, t.f["place"])
-                bb = t.f["bb"]
+                fr.bb = t.f["bb"]
             elif k == "unreachable":
-                raise Panic("reached `unreachable` terminator (UB)", "%s bb%d" % (fn.name, bb))
+                raise Panic("reached `unreachable` terminator (UB)", "%s bb%d" % (fn.name, fr.bb))
             elif k == "resume":
                 raise Panic("resume", fn.name)
             else:
